@@ -79,6 +79,8 @@ def run(out, info, tier, seed):
     for o in obl: out.add_obligation(o['name'], o['ok'], o['assumptions'])
     out.add_obligation('Static.CycleP (closure invariant: every stored path is a walk composing to the stored delay)', info.vo_ok('Static/CycleP'), '')
     out.add_obligation('Static.CycleC (worklist invariant: completeness for uniform delay shapes)', info.vo_ok('Static/CycleC'), '')
+    out.add_obligation('Time.Tie.tie_update_min (scenario.update_min, regenerated from the source, is the upd_min of the modelled closure)',
+                       info.translator_ok and info.vo_ok('Time/Tie'), 'closed under the global context (Time/Tie.v)')
     bad = common.hygiene()
     out.add_obligation('hygiene: no Admitted/admit/Axiom/Parameter/Unset Guard in coq/', not bad, '; '.join(bad[:5]))
     if broken: out.notes.append('broken files: ' + ', '.join(broken) + '\n' + log[-1500:])
@@ -122,6 +124,38 @@ def run(out, info, tier, seed):
                     if any(k.startswith('w') and not grp[a] for a, b, k in edges): continue
                     aspace.append((n, grp, edges))
     extra += aspace if exhaustive else rng.sample(aspace, 600)
+    # cycles through two groups (siblings or nested): inside each group a weak connection and, often, a plain connection
+    # back (an admissible weak-resolved 2-cycle), the groups linked by cross connections in both directions, so that long
+    # cycles exist which no weak connection resolves and parallel paths with equal tiers but different cutoff compete
+    for _ in range(250 if not exhaustive else 4000):
+        G, H = rng.choice([((0,), (1,)), ((0, 0), (0, 1)), ((0,), (0, 0)), ((0,), (1,))])
+        ng, nh = rng.choice([2, 2, 3]), rng.choice([1, 2, 2])
+        top = rng.choice([0, 0, 1])
+        n = ng + nh + top
+        grp = [G] * ng + [H] * nh + [()] * top
+        gm, hm, tm = list(range(ng)), list(range(ng, ng + nh)), list(range(ng + nh, n))
+        edges = []
+        for mem in (gm, hm):
+            if len(mem) >= 2:
+                x, y = rng.sample(mem, 2)
+                edges.append((x, y, 'w'))
+                if rng.random() < 0.7: edges.append((y, x, 'p'))
+                if len(mem) == 3 and rng.random() < 0.5:
+                    z = [m_ for m_ in mem if m_ not in (x, y)][0]
+                    edges.append((y, z, rng.choice(['p', 'w']))); edges.append((z, x, rng.choice(['p', 'p', 'w'])))
+            elif rng.random() < 0.3:
+                edges.append((mem[0], mem[0], rng.choice(['w', 'ts'])))
+        weak_cross = common_len(G, H) > 0
+        for _k in range(rng.randint(1, 2)):
+            edges.append((rng.choice(gm), rng.choice(hm), rng.choice(['p', 'p', 'p', 'ts'] + (['w'] if weak_cross else []))))
+            edges.append((rng.choice(hm), rng.choice(gm), rng.choice(['p', 'p', 'p', 'ts'] + (['w'] if weak_cross else []))))
+        for t_ in tm:
+            edges.append((rng.choice(gm + hm), t_, 'p'))
+            if rng.random() < 0.6: edges.append((t_, rng.choice(gm + hm), rng.choice(['p', 'ts'])))
+        rng.shuffle(edges)
+        extra.append((n, tuple(grp), tuple(edges)))
+    # two sibling groups, each with a weak connection and a plain connection back, linked into one long cycle
+    extra.append((4, ((0,), (0,), (1,), (1,)), ((0, 1, 'w'), (1, 0, 'p'), (1, 2, 'p'), (2, 3, 'w'), (3, 2, 'p'), (3, 0, 'p'))))
     cases = cases + extra
     # witness of known finding F9 (non-convex: P -> R -> S leaves group G and comes back; weak edges inside G)
     cases.append((5, ((0,), (0,), (0,), (0,), ()), ((0, 4, 'p'), (4, 1, 'p'), (1, 3, 'w'), (3, 2, 'w'), (0, 2, 'w'))))
